@@ -1,3 +1,202 @@
-"""replay.py - run a CBMC counterexample against the real C++ headers (DESIGN.md 11)."""
+"""replay.py - run a CBMC counterexample of a `world.*` obligation against the REAL C++ headers (DESIGN.md 11).
+
+The counterexample is a well-formed state of one mock function (which list each expectation is in, bounds, counts,
+WITH results, sequence membership, which handles are still registered) plus the operation.  The generator
+ 1. shrinks the 64-bit bounds/counts to small values with the same order relations (count>=min, count+1==max,
+    max==0, min==1, count in {0,1,>=2});
+ 2. builds the state through the PUBLIC API only (NAMED_REQUIRE_CALL ... LR_WITH ... IN_SEQUENCE ... RT_TIMES ...
+    LR_SIDE_EFFECT ... LR_RETURN, then set-up calls that only the intended expectation accepts), checks through
+    is_satisfied()/is_saturated()/is_completed() that the state was reached (else: not constructible, exit 2);
+ 3. performs the operation and compares what the property promises for that state (computed here from the property
+    text, same rule as harness/world.h spec_*) with what the real library does.
+Program exit code: 1 = the real code breaks the property on this input (violation reproduced), 0 = it behaves as
+the property says (not reproduced), 2 = state not constructible through the API.
+Returns True only when the violation was reproduced."""
+import os, re, json, subprocess
+
+REPO = os.environ.get('VP_REPO', '/repo')
+
+def _get(vals, name, *idx):
+    key = name + ''.join('[%dl]' % i for i in idx)
+    v = vals.get(key)
+    if v is None: return None
+    if v in ('TRUE', 'FALSE'): return v == 'TRUE'
+    m = re.match(r'^(-?\d+)', str(v))
+    return int(m.group(1)) if m else None
+
+def shrink(mn, cnt, mx):
+    """smallest (min,count,max) with the same relations"""
+    want = (cnt >= mn, mx == 0, cnt + 1 == mx, cnt == mx, mn == 0, mn == 1, min(cnt, 2), mn <= mx, cnt < mx)
+    for M in range(0, 6):
+        for m in range(0, M + 1):
+            for c in range(0, M + 1):
+                if (c >= m, M == 0, c + 1 == M, c == M, m == 0, m == 1, min(c, 2), m <= M, c < M) == want: return m, c, M
+    return None
+
 def try_replay(pid, r, fails, vals, rdir):
-    return False
+    name = r['name']
+    m = re.match(r'^world(_mv)?\.(call\.mock_func|find\.[a-z_.]+)#N(\d)\.([ASD]+)', name)
+    if not m:
+        open(os.path.join(rdir, 'replay_note.txt'), 'w').write('no C++ replay template for obligation %s; the counterexample is in violation.json\n' % name)
+        return False
+    movable = bool(m.group(1)); N = int(m.group(3)); where = ['ASD'.index(ch) for ch in m.group(4)]
+    st = []
+    for i in range(N):
+        mn, cnt, mx = _get(vals, 'in_min', i), _get(vals, 'in_cnt', i), _get(vals, 'in_max', i)
+        if None in (mn, cnt, mx): return _note(rdir, 'counterexample lacks bounds of expectation %d' % i)
+        s = shrink(mn, cnt, mx)
+        if s is None: return _note(rdir, 'bounds of expectation %d cannot be shrunk' % i)
+        K = _get(vals, 'in_K', i) or 0
+        nc = _get(vals, 'in_ncond', i) or 0
+        st.append({'where': where[i], 'min': s[0], 'cnt': s[1], 'max': s[2], 'K': K, 'seq0': _get(vals, 'in_seq0', i) or 0,
+                   'linked': [bool(_get(vals, 'in_linked', i, 0)), bool(_get(vals, 'in_linked', i, 1))],
+                   'cres': [bool(_get(vals, 'in_cres', i, c)) for c in range(nc)], 'reported': bool(_get(vals, 'in_reported', i)),
+                   'nact': _get(vals, 'in_nact', i) or 0, 'athrow': [(_get(vals, 'in_athrow', i, a) or 0) for a in range(2)],
+                   'rthrow': _get(vals, 'in_rthrow', i) or 0})
+    if any(e['where'] == 2 for e in st): return _note(rdir, 'state has an expectation whose mock was destroyed first: not expressible in the call replay')
+    if any(e['reported'] for e in st): return _note(rdir, 'state needs an earlier violation report naming an expectation: not expressible in the call replay')
+    # the set-up history (oldest expectation first, `cnt` calls each) must lead to exactly the registered-handle state
+    # of the counterexample; simulated here with the property's semantics, otherwise the state is not constructible
+    def seq_of(i, k): return st[i]['seq0'] if k == 0 else 1 - st[i]['seq0']
+    link = [[k < st[i]['K'] for k in range(2)] for i in range(N)]; cur = [0] * N
+    for i in range(N - 1, -1, -1):
+        for _ in range(st[i]['cnt']):
+            for k in range(st[i]['K']):
+                if not link[i][k]: return _note(rdir, 'set-up history impossible: expectation %d already passed in a sequence' % i)
+                for j in range(N - 1, i, -1):
+                    for kk in range(st[j]['K']):
+                        if seq_of(j, kk) == seq_of(i, k) and link[j][kk] and cur[j] < st[j]['min']:
+                            return _note(rdir, 'set-up history impossible: expectation %d is behind an unsatisfied predecessor' % i)
+            cur[i] += 1
+            for k in range(st[i]['K']):
+                for j in range(N - 1, i, -1):
+                    for kk in range(st[j]['K']):
+                        if seq_of(j, kk) == seq_of(i, k): link[j][kk] = False
+                if cur[i] == st[i]['max']: link[i][k] = False
+    for i in range(N):
+        for k in range(st[i]['K']):
+            if link[i][k] != st[i]['linked'][k]:
+                return _note(rdir, 'the registered-handle state of the counterexample (expectation %d, handle %d) is not the one the canonical set-up history produces' % (i, k))
+    src = gen_call_program(N, st, movable)
+    for old in ('replay_note.txt', 'replay_output.txt'):
+        try: os.remove(os.path.join(rdir, old))
+        except OSError: pass
+    cpp = os.path.join(rdir, 'replay.cpp'); open(cpp, 'w').write(src)
+    exe = os.path.join(rdir, 'replay_bin')
+    c = subprocess.run(['g++', '-std=c++14', '-I' + os.path.join(REPO, 'include'), cpp, '-o', exe], capture_output=True, text=True)
+    open(os.path.join(rdir, 'run_replay.sh'), 'w').write('#!/bin/sh\ng++ -std=c++14 -I%s/include %s -o %s && %s\n' % (REPO, cpp, exe, exe))
+    os.chmod(os.path.join(rdir, 'run_replay.sh'), 0o755)
+    if c.returncode != 0:
+        return _note(rdir, 'replay program does not compile:\n' + c.stderr[-2000:])
+    try:
+        x = subprocess.run([exe], capture_output=True, text=True, timeout=60)
+    except subprocess.TimeoutExpired:
+        return _note(rdir, 'replay program timed out')
+    open(os.path.join(rdir, 'replay_output.txt'), 'w').write('exit %d\n%s\n%s' % (x.returncode, x.stdout, x.stderr))
+    try: os.remove(exe)
+    except OSError: pass
+    return x.returncode == 1
+
+def _note(rdir, text):
+    open(os.path.join(rdir, 'replay_note.txt'), 'w').write(text + '\n'); return False
+
+def gen_call_program(N, st, movable):
+    """C++14 program: build the state, call f(x), compare with the property"""
+    L = []
+    L.append('// generated by /verif/tools/replay.py from a CBMC counterexample: state of one mock function, then one call')
+    L.append('#include <trompeloeil.hpp>\n#include <cstdio>\n#include <memory>\n#include <string>\n#include <vector>\n#include <stdexcept>')
+    L.append('using trompeloeil::_;')
+    L.append('struct fatal_report {};\nstruct user_exc : std::runtime_error { user_exc() : std::runtime_error("user") {} };')
+    L.append('struct Rep { bool fatal; unsigned long line; std::string msg; };\nstatic std::vector<Rep> reps; static std::vector<std::string> oks; static std::vector<std::string> events;')
+    L.append('struct M { %sMAKE_MOCK1(f, int(int)); };' % ('static constexpr bool trompeloeil_movable_mock = true; ' if movable else ''))
+    L.append('static int setup_target = -1; static bool final_call = false;')
+    L.append('#define CHECK(c, what) do { if (!(c)) { std::printf("PROPERTY BROKEN on the real code: %s\\n", what); broken = true; } } while (0)')
+    L.append('#define NEED(c, what) do { if (!(c)) { std::printf("state not constructible through the API: %s\\n", what); return 2; } } while (0)')
+    L.append('int main()\n{')
+    L.append('  trompeloeil::set_reporter([](trompeloeil::severity s, char const*, unsigned long line, std::string const& msg) { reps.push_back({s == trompeloeil::severity::fatal, line, msg}); if (s == trompeloeil::severity::fatal) throw fatal_report{}; },')
+    L.append('                            [](char const* msg) { oks.push_back(msg); });')
+    L.append('  bool broken = false;\n  M m;\n  trompeloeil::sequence s0, s1;')
+    for i in range(N):
+        for c, v in enumerate(st[i]['cres']): L.append('  bool c_%d_%d = %s;' % (i, c, 'true' if v else 'false'))
+    L.append('  unsigned long line_of[%d];' % N)
+    # creation oldest first (index N-1 .. 0); expectation i's text is f(((_))) with i+1 pairs of parentheses
+    for i in range(N - 1, -1, -1):
+        e = st[i]
+        arg = '(' * i + '_' + ')' * i
+        s = '  line_of[%d] = __LINE__; std::unique_ptr<trompeloeil::expectation> e%d = NAMED_REQUIRE_CALL(m, f(%s))' % (i, i, arg)
+        if not e['cres']: s += '.LR_WITH(final_call || setup_target == %d)' % i
+        for c in range(len(e['cres'])): s += '.LR_WITH(final_call ? c_%d_%d : setup_target == %d)' % (i, c, i)
+        for a in range(e['nact']):
+            s += '.LR_SIDE_EFFECT(if (final_call) { events.push_back("A%d.%d"); %s })' % (i, a, 'throw user_exc();' if e['athrow'][a] else '')
+        if e['K'] >= 1:
+            seqs = ['s%d' % e['seq0']] + (['s%d' % (1 - e['seq0'])] if e['K'] == 2 else [])
+            s += '.IN_SEQUENCE(%s)' % ', '.join(seqs)
+        s += '.RT_TIMES(%d, %d)' % (e['min'], e['max'])
+        s += '.LR_RETURN((final_call ? (%s, events.push_back("R%d")) : void(), %d));' % ('throw user_exc()' if e['rthrow'] else 'void()', i, 7000 + i)
+        L.append(s)
+    # set-up calls: oldest first so that sequence order is respected
+    for i in range(N - 1, -1, -1):
+        if st[i]['cnt'] > 0:
+            L.append('  setup_target = %d; for (int k = 0; k < %d; ++k) { try { m.f(0); } catch (fatal_report&) { NEED(false, "a set-up call was rejected"); } }' % (i, st[i]['cnt']))
+    L.append('  setup_target = -1; NEED(reps.empty(), "set-up produced a report"); oks.clear();')
+    for i in range(N):
+        e = st[i]
+        L.append('  NEED(e%d->is_satisfied() == %s && e%d->is_saturated() == %s, "bounds/count of expectation %d");' % (i, 'true' if e['cnt'] >= e['min'] else 'false', i, 'true' if e['cnt'] == e['max'] else 'false', i))
+    # which handles are still registered cannot be observed directly; is_completed() gives a necessary condition
+    for s in (0, 1):
+        comp = all(st[i]['cnt'] >= st[i]['min'] for i in range(N) for k in range(st[i]['K']) if (st[i]['seq0'] if k == 0 else 1 - st[i]['seq0']) == s and st[i]['linked'][k])
+        L.append('  NEED(s%d.is_completed() == %s, "registered handles of sequence %d");' % (s, 'true' if comp else 'false', s))
+    # expected outcome by the property (selection rule of C02)
+    def seq_of(i, k): return st[i]['seq0'] if k == 0 else 1 - st[i]['seq0']
+    def sat(i): return st[i]['cnt'] >= st[i]['min']
+    def cost1(i, k):
+        if not st[i]['linked'][k]: return None
+        s = seq_of(i, k); c = 0
+        for j in range(N - 1, i, -1):
+            for kk in range(st[j]['K']):
+                if seq_of(j, kk) == s and st[j]['linked'][kk]:
+                    if not sat(j): return None
+                    c += 1
+        return c
+    def cost(i):
+        cs = [cost1(i, k) for k in range(st[i]['K'])]
+        if any(c is None for c in cs): return 1 << 40
+        return max(cs) if cs else 0
+    cand = None
+    for i in range(N):
+        if st[i]['where'] == 0 and all(st[i]['cres']):
+            if cand is None or cost(i) < cost(cand): cand = i
+    accepted = cand is not None and st[cand]['max'] != 0 and cost(cand) < (1 << 40)
+    L.append('  // ---- the call under test')
+    L.append('  final_call = true; bool fatal = false, user = false; int ret = -1;')
+    L.append('  try { ret = m.f(1); } catch (fatal_report&) { fatal = true; } catch (user_exc&) { user = true; }')
+    if not accepted:
+        L.append('  CHECK(fatal && reps.size() == 1 && reps[0].fatal, "a call without an eligible non-forbidding candidate is exactly one fatal report");')
+        if cand is not None:
+            L.append('  CHECK(reps.size() >= 1 && reps[0].line == line_of[%d], "the violation report carries the location of the designated candidate (expectation %d)");' % (cand, cand))
+        L.append('  CHECK(oks.empty(), "a rejected call produces no OK report");')
+        L.append('  CHECK(events.empty(), "a rejected call evaluates no side effect / return expression");')
+        for i in range(N):
+            e = st[i]
+            L.append('  CHECK(e%d->is_satisfied() == %s && e%d->is_saturated() == %s, "a rejected call changes no call count (expectation %d)");' % (i, 'true' if e['cnt'] >= e['min'] else 'false', i, 'true' if e['cnt'] == e['max'] else 'false', i))
+    else:
+        e = st[cand]
+        exp_events = []; threw = False
+        for a in range(e['nact']):
+            exp_events.append('A%d.%d' % (cand, a))
+            if e['athrow'][a]: threw = True; break
+        if not threw:
+            exp_events.append('R%d' % cand)
+            if e['rthrow']: threw = True
+        L.append('  CHECK(!fatal && reps.empty(), "a call with an eligible candidate is accepted without a report");')
+        L.append('  { std::vector<std::string> want = {%s}; CHECK(events == want, "exactly the side effects and return expression of the designated expectation run, in order"); }' % ', '.join('"%s"' % x for x in exp_events))
+        if not threw: L.append('  CHECK(ret == %d, "the caller receives the designated expectation\'s value");' % (7000 + cand))
+        else: L.append('  CHECK(user, "the caller receives the clause\'s exception");')
+        L.append('  CHECK(oks.size() == 1 && oks[0].find("f(%s)") != std::string::npos, "exactly one OK report naming the handling expectation");' % ('(' * cand + '_' + ')' * cand))
+        for i in range(N):
+            c2 = st[i]['cnt'] + (1 if i == cand else 0)
+            L.append('  CHECK(e%d->is_satisfied() == %s && e%d->is_saturated() == %s, "only the handling expectation\'s count advances (expectation %d)");' % (i, 'true' if c2 >= st[i]['min'] else 'false', i, 'true' if c2 == st[i]['max'] else 'false', i))
+    L.append('  std::printf(broken ? "REPLAY: violation reproduced on the real headers\\n" : "REPLAY: the real code behaves as the property says on this input\\n");')
+    L.append('  e0.reset();' + ''.join(' e%d.reset();' % i for i in range(1, N)))
+    L.append('  return broken ? 1 : 0;\n}')
+    return '\n'.join(L) + '\n'
